@@ -302,11 +302,19 @@ def layout(repo, run):
     run.judged(rid, "loop enumerates the flattened INPUT `%s`" % over, ok=ok)
     if not ok:
         run.report("C16.4", UTL, lp, "the finite-difference loop does not enumerate the components of the input")
-    alloc = [st for st in fn.body if isinstance(st, ast.Assign) and isinstance(st.value, ast.Call) and fname(st.value) == "zeros" and isinstance(st.value.args[0], ast.Tuple)]
+    from ..sym import inline_locals
+    env = inline_locals(fn)
+
+    def shape_arg(call):
+        a = call.args[0] if call.args else None
+        if isinstance(a, ast.Name) and a.id in env:
+            a = env[a.id]
+        return a
+    alloc = [st for st in fn.body if isinstance(st, ast.Assign) and isinstance(st.value, ast.Call) and fname(st.value) == "zeros" and isinstance(shape_arg(st.value), ast.Tuple)]
     oka = False
     jname = None
     for st in alloc:
-        el = [src(e) for e in st.value.args[0].elts]
+        el = [src(e) for e in shape_arg(st.value).elts]
         if flat_out and flat_in and el == ["*D.ar_numpy.shape(%s)" % flat_out, "*D.ar_numpy.shape(%s)" % flat_in]:
             oka = True
             jname = src(st.targets[0])
@@ -329,6 +337,8 @@ def layout(repo, run):
     okr = False
     for r in rets:
         a = r.value.args[0]
+        if isinstance(a, ast.Name) and a.id in env:
+            a = env[a.id]
         if isinstance(a, ast.Tuple):
             el = [src(e) for e in a.elts]
             if len(el) == 2 and el[0].startswith("*D.ar_numpy.shape(") and el[1] == "*D.ar_numpy.shape(%s)" % yname and el[0] != el[1]:
